@@ -75,8 +75,10 @@ class Ctx:
         tot = quick if self.quick else thorough
         return max(1, -(-tot // self.nshards))
 
-    def expired(self):
-        if self.deadline is not None and time.time() > self.deadline:
+    def expired(self, share=1.0):
+        """soft deadline reached?  A phase of a multi-phase workload passes the share of the time it may use up at most
+        (so that an early phase cannot starve the later ones on a loaded machine)."""
+        if self.deadline is not None and time.time() > self.t0 + (self.deadline - self.t0) * share:
             self.counters["soft_deadline_hit"] = 1
             return True
         return False
